@@ -580,8 +580,8 @@ class Bits:
 
     def _setbits(self, bs: BitsType, length: None = None) -> None:
         bs = Bits._create_from_bitstype(bs)
-        # Only an immutable store may be shared; a mutable source is copied.
-        self._bitstore = bs._bitstore.copy()
+        # Never adopt the source's store: self may be mutable, or the source may be (or be cached).
+        self._bitstore = bs._bitstore._copy()
 
     def _setp3binary(self, f: float) -> None:
         self._bitstore = bitstore_helpers.p3binary2bitstore(f)
